@@ -235,6 +235,20 @@ func (e *Engine) initIntrinsics() {
 		e.fireAllPending()
 		return nil
 	}
+	// vpFireAllBlocked: runs every parked goroutine and reports whether any of them is left blocked for good (a library
+	// goroutine that does not terminate); natively: after the bubble is quiescent, is a goroutine started by the library
+	// still alive?
+	I["vp:vpFireAllBlocked"] = func(e *Engine, a []Value, pos token.Pos, fn *ssa.Function) Value {
+		blocked := tb.False
+		for i := 0; i < len(e.pending); i++ {
+			c := &Catcher{PanicG: tb.False, BlockG: tb.False, CatchBlock: true}
+			e.catchers = append(e.catchers, c)
+			e.firePending(i)
+			e.catchers = e.catchers[:len(e.catchers)-1]
+			blocked = tb.Or(blocked, c.BlockG)
+		}
+		return blocked
+	}
 	I["vp:vpPending"] = func(e *Engine, a []Value, pos token.Pos, fn *ssa.Function) Value {
 		n := 0
 		for _, p := range e.pending {
